@@ -18,10 +18,15 @@ func init() {
 func (c *Ctx) readSide() []*ssa.Function {
 	serve := c.Method("BaseClient", "serve")
 	roots := []*ssa.Function{serve}
-	if f := c.Func("subscribeImpl"); f != nil {
-		roots = append(roots, f)
-	}
 	seen := c.reachableFuncs(roots, false)
+	// Subscribe's own use of the received SUBACK (the copy-back of the granted QoS): the function and its closures, not
+	// what it calls to build the request from the caller's arguments (that is the caller's data, not the peer's)
+	for f := range c.subscribeImpls() {
+		seen[f] = true
+		for _, a := range f.AnonFuncs {
+			seen[a] = true
+		}
+	}
 	var out []*ssa.Function
 	for _, f := range c.Funcs {
 		if seen[f] {
